@@ -7,6 +7,7 @@
                        -> ACC B <main>:<items>;... R <t>=<res>,... I <keys> | REJECT <i>
    K <bits>            SetReferrersCapability sequence -> K <state>/<err>,...
    X <sg> <init> <changes> <ev> ...  exchanges of an end-to-end run on one tag -> ACC R .. I .. | REJECT <i>
+   T <d:m:z,...>       buildReferrersTag on subject descriptors (digest:mediatype:size, interned) -> T <class,...>
    D <kind> <art> <cfg>  indexReferrersForPush artifact type -> D <type>
    E <n>               end-to-end run (judged by the oracle)   -> E <n>
    descriptor = k:a:p, list = "-" | d,d,...   change = +d | ~d *)
@@ -26,126 +27,45 @@ let show_list (l : desc list) = if l = [] then "-" else String.concat "," (List.
 let dash s = if s = "" then "-" else s
 let show_res = function ROk -> "ok" | RIdxDel -> "idxdel" | RErr -> "err"
 
-(* replay of a visible Merge schedule in the transition system; hidden steps
-   (receiving the main status, commit, complete, release) are inserted where the
-   real code performs them between two quiescent points *)
+(* a visible schedule (G<t> | P<t>:<f> | U<t>:<f> | D<t>:<f>) is replayed by the extracted
+   vis_summary (Model/Merge.v): the hidden lock regions are inserted there, not here *)
+let parse_vis (ev : string) : vis =
+  let rest = String.sub ev 1 (String.length ev - 1) in
+  match ev.[0] with
+  | 'G' -> VG (nat_of_int (int_of_string rest))
+  | k ->
+    let t, f = (match String.split_on_char ':' rest with
+                | [a; b] -> nat_of_int (int_of_string a), b = "1" | _ -> failwith "ev") in
+    (match k with 'P' -> VP (t, f) | 'U' -> VU (t, f) | 'D' -> VD (t, f) | _ -> failwith "ev")
+
+let show_results rs =
+  String.concat "," (List.mapi (fun t r ->
+    match r with Some r -> Printf.sprintf "%d=%s" t (show_res r) | None -> Printf.sprintf "%d=pending" t) rs)
+
+let tids l = String.concat "," (List.map (fun x -> string_of_int (int_of_nat x)) l)
+
 let run_m (n : int) (evs : string list) : string =
-  let st = ref (init None []) in
-  let rejected = ref (-1) in
-  let batches = ref [] in
-  let do_step i e =
-    if !rejected < 0 then
-      match step false !st e with Some s -> st := s | None -> rejected := i in
-  let closure i =
-    let progress = ref true in
-    while !progress && !rejected < 0 do
-      progress := false;
-      for t = 0 to n - 1 do
-        if !rejected < 0 then
-          match (!st).pcs (nat_of_int t) with
-          | Completing _ -> do_step i (EComplete (nat_of_int t)); progress := true
-          | Ret _ -> do_step i (EDone (nat_of_int t)); progress := true
-          | _ -> ()
-      done
-    done in
-  List.iteri (fun i ev ->
-    let kind = ev.[0] in
-    let rest = String.sub ev 1 (String.length ev - 1) in
-    (match kind with
-     | 'G' ->
-       let t = int_of_string rest in
-       do_step i (EGet (nat_of_int t, Add { dkey = n_of_int (t + 1); dart = N0; dpay = N0 }));
-       do_step i (EAssign (nat_of_int t))
-     | _ ->
-       let t, f = (match String.split_on_char ':' rest with
-                   | [a; b] -> int_of_string a, b = "1" | _ -> failwith "ev") in
-       let tn = nat_of_int t in
-       (match kind with
-        | 'P' ->
-          do_step i (ERecvMain tn);
-          do_step i (EPrepare (tn, f));
-          (match (!st).pcs tn with
-           | Prepared (Some _) when !rejected < 0 ->
-             let its = List.map (fun (x, _) -> string_of_int (int_of_nat x)) (!st).items in
-             batches := (Printf.sprintf "%d:%s" t (String.concat "," its)) :: !batches
-           | _ -> ());
-          do_step i (ECommit tn)
-        | 'U' -> do_step i (EPut (tn, f))
-        | 'D' -> do_step i (EDel (tn, f))
-        | _ -> failwith "ev"));
-    closure i) evs;
-  if !rejected >= 0 then Printf.sprintf "REJECT %d" !rejected
-  else begin
-    let res = List.init n (fun t ->
-      match (!st).pcs (nat_of_int t) with
-      | Done r -> Printf.sprintf "%d=%s" t (show_res r)
-      | _ -> Printf.sprintf "%d=pending" t) in
-    let keys = match (!st).reg with
-      | None -> []
-      | Some l -> List.sort compare (List.map (fun d -> int_of_n d.dkey - 1) l) in
-    Printf.sprintf "ACC B %s R %s I %s" (dash (String.concat ";" (List.rev !batches)))
-      (String.concat "," res) (dash (String.concat "," (List.map string_of_int keys)))
-  end
+  let changes = List.init n (fun t -> Add { dkey = n_of_int (t + 1); dart = N0; dpay = N0 }) in
+  match vis_summary false None changes (List.map parse_vis evs) with
+  | None -> "REJECT"
+  | Some ((rs, idx), log) ->
+    let batches = List.filter_map (function OBatch (m, ms) -> Some (Printf.sprintf "%d:%s" (int_of_nat m) (tids ms)) | _ -> None) log in
+    let keys = match idx with None -> [] | Some l -> List.sort compare (List.map (fun k -> int_of_n k - 1) l) in
+    Printf.sprintf "ACC B %s R %s I %s" (dash (String.concat ";" batches)) (show_results rs)
+      (dash (String.concat "," (List.map string_of_int keys)))
 
 (* X <skipgc> <init> <changes> <ev> ...: the exchanges of an end-to-end run on one
    referrers tag; caller i passes the i-th change *)
 let run_x (sg : bool) (init0 : string) (changes : change list) (evs : string list) : string =
-  let n = List.length changes in
   let r0 = if init0 = "none" then None else Some (List.map (fun k -> { dkey = n_of_int (int_of_string k); dart = N0; dpay = N0 })
                                                   (if init0 = "-" then [] else String.split_on_char ',' init0)) in
-  let st = ref (init r0 []) in
-  let rejected = ref (-1) in
-  let puts = ref [] in
-  let do_step i e =
-    if !rejected < 0 then
-      match step sg !st e with Some s -> st := s | None -> rejected := i in
-  let closure i =
-    let progress = ref true in
-    while !progress && !rejected < 0 do
-      progress := false;
-      for t = 0 to n - 1 do
-        if !rejected < 0 then
-          match (!st).pcs (nat_of_int t) with
-          | Completing _ -> do_step i (EComplete (nat_of_int t)); progress := true
-          | Ret _ -> do_step i (EDone (nat_of_int t)); progress := true
-          | _ -> ()
-      done
-    done in
-  List.iteri (fun i ev ->
-    let kind = ev.[0] in
-    let rest = String.sub ev 1 (String.length ev - 1) in
-    (match kind with
-     | 'G' ->
-       let t = int_of_string rest in
-       do_step i (EGet (nat_of_int t, List.nth changes t));
-       do_step i (EAssign (nat_of_int t))
-     | _ ->
-       let t, f = (match String.split_on_char ':' rest with
-                   | [a; b] -> int_of_string a, b = "1" | _ -> failwith "ev") in
-       let tn = nat_of_int t in
-       (match kind with
-        | 'P' -> do_step i (ERecvMain tn); do_step i (EPrepare (tn, f)); do_step i (ECommit tn)
-        | 'U' ->
-          (match (!st).pcs tn with
-           | NeedPut (nw, _) when !rejected < 0 ->
-             puts := (if nw = [] then "-" else String.concat "," (List.map (fun d -> string_of_int (int_of_n d.dkey)) nw)) :: !puts
-           | _ -> ());
-          do_step i (EPut (tn, f))
-        | 'D' -> do_step i (EDel (tn, f))
-        | _ -> failwith "ev"));
-    closure i) evs;
-  if !rejected >= 0 then Printf.sprintf "REJECT %d" !rejected
-  else begin
-    let res = List.init n (fun t ->
-      match (!st).pcs (nat_of_int t) with
-      | Done r -> Printf.sprintf "%d=%s" t (show_res r)
-      | _ -> Printf.sprintf "%d=pending" t) in
-    let idx = match (!st).reg with
-      | None -> "none"
-      | Some [] -> "-"
-      | Some l -> String.concat "," (List.map (fun d -> string_of_int (int_of_n d.dkey)) l) in
-    Printf.sprintf "ACC R %s I %s U %s" (String.concat "," res) idx (dash (String.concat ";" (List.rev !puts)))
-  end
+  match vis_summary sg r0 changes (List.map parse_vis evs) with
+  | None -> "REJECT"
+  | Some ((rs, idx), log) ->
+    let keys l = if l = [] then "-" else String.concat "," (List.map (fun k -> string_of_int (int_of_n k)) l) in
+    let puts = List.filter_map (function OPut (_, nw) -> Some (if nw = [] then "e" else keys (List.map (fun d -> d.dkey) nw)) | _ -> None) log in
+    Printf.sprintf "ACC R %s I %s U %s" (show_results rs)
+      (match idx with None -> "none" | Some l -> keys l) (dash (String.concat ";" puts))
 
 let cap_num = function CapUnknown -> 0 | CapSupported -> 1 | CapUnsupported -> 2
 
@@ -162,12 +82,18 @@ let () =
       Printf.printf "%s L %s\n" id (show_list (filter_referrers (parse_list s) (n_of_int (int_of_string a))))
     | id :: "M" :: n :: evs -> Printf.printf "%s %s\n" id (run_m (int_of_string n) evs)
     | id :: "X" :: sg :: init0 :: cs :: evs ->
+      let evs = List.filter (fun e -> e.[0] <> 'J') evs in   (* J<hex>: the replay of the end-to-end case *)
       Printf.printf "%s %s\n" id (run_x (sg = "1") init0 (parse_changes cs) evs)
     | [id; "K"; bits] ->
       let bs = List.init (String.length bits) (fun i -> bits.[i] = '1') in
       let rs = set_caps CapUnknown bs in
       Printf.printf "%s K %s\n" id
         (String.concat "," (List.map (fun (s, e) -> Printf.sprintf "%d/%d" (cap_num s) (if e then 1 else 0)) rs))
+    | [id; "T"; l] ->
+      let ds = List.map (fun x -> match String.split_on_char ':' x with
+          | [d; m; z] -> { s_mt = n_of_int (int_of_string m); s_digest = n_of_int (int_of_string d); s_size = n_of_int (int_of_string z) }
+          | _ -> failwith "subject") (String.split_on_char ',' l) in
+      Printf.printf "%s T %s\n" id (String.concat "," (List.map (fun i -> string_of_int (int_of_nat i)) (tag_classes ds)))
     | [id; "D"; k; a; c] ->
       let kind = (match k with "artifact" -> KArtifact | "index" -> KIndex | _ -> KImage) in
       Printf.printf "%s D %d\n" id (int_of_n (referrer_art kind (n_of_int (int_of_string a)) (n_of_int (int_of_string c))))
